@@ -52,7 +52,7 @@ fn check(st: &mut TypeToAnyMap, rf: &Ref) {
 
 /// One solver-chosen operation (kind, key, symbolic value) from a populated state; all reads compared with the reference
 /// before and after.
-// not registered: exceeds the memory cap (DESIGN §6) 
+// not registered: exceeds the memory cap (DESIGN §6)
 fn c14_one_op_read_your_writes() {
   let mut st = TypeToAnyMap::default();
   let mut rf = Ref { k1: [None; 2], k2: [None; 2], cell: None };
@@ -92,3 +92,4 @@ fn c14_equals_checker_and_stamp_routes() {
   }); });
   ::std::mem::forget(st);
 }
+
